@@ -60,6 +60,10 @@ def base(ctx, n):
                 r1 = {'part': part, 'head': ('tel', f), 'body': [('p', ('patom', 'c', 0))]}
                 r2 = {'part': part, 'head': ('tel', g), 'body': [('n', ('patom', 'c', 0))]}
                 out.append([{'part': 'always', 'head': ('choice', ['c']), 'body': []}] + ([r1, r2] if first == 0 else [r2, r1]))
+    # fixed family: pending chains of next operators below past operators; the variants below write their sub-formulas once more in further atoms
+    fam = gen.revisit_family()
+    for f in fam:
+        out.append([{'part': 'always', 'head': ('choice', ['a', 'b']), 'body': []}, {'part': 'always', 'head': ('norm', 'c', 0), 'body': [('m', ('tel', f))]}])
     return out
 
 
@@ -86,11 +90,18 @@ def variants(rng, p):
     if ini and rest:
         vs.append(('split-implicit-base', [lang.prog_txt(rest), lang.prog_txt(ini + rest[:1], implicit_base=True)]))
         vs.append(('base-after-final', [lang.prog_txt(rest + [{'part': 'final', 'head': ('cons',), 'body': [('p', ('kw', 'false'))]}] + [dict(r, part='base') for r in ini])]))
+    if ini:
+        # a first file that ENDS in the initial part, a second file that repeats one of its initial statements without a #program line
+        vs.append(('split-ends-initial', [lang.prog_txt(rest + ini), lang.prog_txt(ini[-1:], implicit_base=True)]))
     # the same sub-formula written once more in a further theory atom that cannot change anything (a fresh observer)
     tel = [l[1][1] for r in p for l in r['body'] if l[1][0] == 'tel']
     if tel:
         f = rng.choice(tel)
         vs.append(('shared', [lang.prog_txt(p + [{'part': rng.choice(gen.PARTS), 'head': ('norm', 'wobs', 0), 'body': [('m', ('tel', f))]}])]))
+        # ... and a proper sub-formula of it (a second parent for the sub-formula's states)
+        subs = [g for g in gen.subformulas(f)[1:] if g[0] not in ('atom', 'true', 'false', 'initial', 'final')]
+        for g in (subs if len(subs) <= 3 else rng.sample(subs, 2)):
+            vs.append(('shared-sub', [lang.prog_txt(p + [{'part': rng.choice(['always', 'dynamic']), 'head': ('norm', 'wobs', 0), 'body': [('m', ('tel', g))]}])]))
     return vs
 
 
